@@ -59,3 +59,14 @@ def run(ck, prog):
     from sa.builders import check_builders
     check_builders(ck, prog, r"^linear::(linear_regression::LinearRegression|ridge_regression::RidgeRegression)Parameters$")
     ck.floor("E2-builder", 4)
+
+
+# ------------------------------------------------------------------ generic: rows/cols (outer/inner) mix-up of locally allocated buffers
+_run_pre_dimension = run
+DIMENSION_FILES = ['src/linalg/cholesky.rs', 'src/linalg/qr.rs', 'src/linalg/stats.rs', 'src/linalg/svd.rs', 'src/linear/linear_regression.rs', 'src/linear/ridge_regression.rs']
+
+
+def run(ck, prog):
+    _run_pre_dimension(ck, prog)
+    from sa import dimension
+    dimension.run_rule(ck, prog, set(DIMENSION_FILES))
